@@ -126,6 +126,13 @@ def gen_pair(rng, kind="duel", fixed=None):
         lo = max(lo, 0)
         lens.append(r.range(lo, hi))
     lens = [max(1, x) for x in lens]
+    fin_mode = 1
+    if kind == "final":
+        # the active chain is long enough to get finalized above the fork point; the candidate is shorter, equal or
+        # TALLER (by up to ki+2) than the active tip, and better / equally / worse endorsed
+        lens[0] = max(lens[0], cfg["alt_maxreorg"] + r.range(1, 3))
+        lens[1] = max(1, lens[0] + r.choice([-3, -1, 0, 0, 1, 1, 2, 2, ki + 1, ki + 2]))
+        fin_mode = r.below(4)    # 0: A unendorsed, 1: both endorsed at random, 2: B unendorsed, 3: neither endorsed
     if kind == "short":
         lens[r.below(2)] = 0      # one tip is the fork point itself: successor / part-of-active-chain short-cuts
     if fixed:
@@ -157,8 +164,9 @@ def gen_pair(rng, kind="duel", fixed=None):
         k = (fh // ki + 1) * ki
         while k <= tip_h:
             mode = r.below(10)
-            if kind == "final" and bi == 0 and r.chance(2, 3):
-                mode = 0                      # the active chain is mostly unendorsed: only its finality protects it
+            if kind == "final" and (fin_mode == 3 or (fin_mode == 0 and bi == 0) or (fin_mode == 2 and bi == 1)) \
+                    and r.chance(4, 5):
+                mode = 0                      # a mostly unendorsed chain: for the active one only its finality protects it
             if mode == 0:
                 k += ki
                 continue                      # unpublished keystone
@@ -330,8 +338,11 @@ def model_lines(P, cid):
 
 def outer_line(P, cid, core):
     """outer_cmp of the model on the facts of this pair (candidate = tipB, fully valid, nothing finalized)"""
-    return "%s.outer outer 1 %d %s %s %s n %d %d 1 %s %s 1" % (
-        cid, 1 if P.tipA == P.tipB else 0, hx(P.hA), hx(P.hB), hx(P.fork_h),
+    fin = "n"
+    if P.kind == "final" and P.hA >= P.cfg["alt_maxreorg"]:
+        fin = hx(P.hA - P.cfg["alt_maxreorg"])      # finalizeBlocks(): the block maxReorgBlocks below the tip
+    return "%s.outer outer 1 %d %s %s %s %s %d %d 1 %s %s 1" % (
+        cid, 1 if P.tipA == P.tipB else 0, hx(P.hA), hx(P.hB), hx(P.fork_h), fin,
         1 if (P.tipB == P.fork and P.tipA != P.tipB) else 0,
         1 if (P.tipA == P.fork and P.tipA != P.tipB) else 0,
         hx(P.cfg["alt_ki"]), hx(core))
@@ -472,20 +483,18 @@ def run_pairs(vlib, ctx, model, harness, pairs, tag, chunk=150, workers=4):
         elif P.kind == "final":
             mr = P.cfg["alt_maxreorg"]
             F = P.hA - mr if P.hA >= mr else None
+            below = F is not None and P.fork_h < F
             rec["impl"] = "%s tip=%s" % (at("cmpAB"), at("tipafter"))
+            rec["below_final"] = below
+            rec["taller"] = P.hB > P.hA
             got = at("cmpAB")
-            if F is not None and P.fork_h < F:
-                rec["expected"] = 1
-                rec["below_final"] = True
-                if (got not in ("1", "0") and not (got or "").startswith("SKIP")) or at("tipafter") != P.tipA:
-                    if rec["status"] == "ok":
-                        rec["status"] = "sign"
-                        rec["why"] = ("candidate forks at height %d below the finalized block at height %d but cmp=%r, "
-                                      "active tip afterwards %r" % (P.fork_h, F, got, at("tipafter")))
-            else:
-                if got not in ("-1", "0", "1"):
+            if got not in ("-1", "0", "1"):
+                if rec["status"] == "ok":
                     rec["status"], rec["why"] = "skip", "cmp answered %r" % got
-                elif int(got) != exp and rec["status"] == "ok":
-                    rec["status"] = "sign"
-                    rec["why"] = "comparePopScore = %s, protocol scorer sign %d (views A=%r B=%r)" % (got, exp, P.viewA, P.viewB)
+            elif (int(got) != exp or (below and at("tipafter") != P.tipA)) and rec["status"] == "ok":
+                rec["status"] = "sign"
+                rec["why"] = ("active tip at height %d, finalized block at height %r, candidate forks at height %d and has "
+                              "height %d: comparePopScore = %s (active tip afterwards %r) but the short-cuts as coded + protocol "
+                              "scorer give sign %d (views A=%r B=%r)"
+                              % (P.hA, F, P.fork_h, P.hB, got, at("tipafter"), exp, P.viewA, P.viewB))
     return out, errs
